@@ -74,6 +74,49 @@ def cli_sample(rng, res, n):
                                      '--nums entry %d outside the source' % bad[0]))
 
 
+def cli_mula_sample(rng, res, n):
+    """python -m yalafi --mula out --nums nums: one pair of files per text
+    part; one number per character, each inside the source; the API gives the
+    same parts"""
+    from gens import docs
+    from yalafi import tex2txt
+    for i in range(n):
+        d = docs.gen_doc(rng, lang=True)
+        lang = rng.choice(['en-GB', 'de-DE'])
+        rc, out, err, files = shellrun.run_filter(
+            ['--mula', 'out', '--nums', 'nums', '--lang', lang, 'in.tex'],
+            files={'in.tex': d.text})
+        res.count('cli-mula', ('cli-mula', d.text, lang))
+        key = 'cli-mula:%r:%s' % (d.text, lang)
+        case = {'latex': d.text, 'lang': lang, 'cli': 'mula'}
+        if rc != 0:
+            res.failures.append((key, case, 'exit %d: %s' % (rc, err[-200:])))
+            continue
+        texts = {k[4:]: v for k, v in files.items() if k.startswith('out.')}
+        nums = {k[5:]: v for k, v in files.items() if k.startswith('nums.')}
+        if set(texts) != set(nums):
+            res.failures.append((key, case, 'text files %r, number files %r'
+                                 % (sorted(texts), sorted(nums))))
+            continue
+        bad = None
+        for k in texts:
+            ns = [int(x.rstrip('+')) for x in nums[k].split()]
+            if len(ns) != len(texts[k]):
+                bad = 'part %s: %d numbers for %d characters' % (k, len(ns), len(texts[k]))
+            elif [x for x in ns if not 1 <= x <= len(d.text)]:
+                bad = 'part %s: number outside the source' % k
+        try:
+            ml = tex2txt.tex2txt(d.text, tex2txt.Options(lang=lang, pack='*'), multi_language=True)
+            api = {'%d.%s' % (nr + 1, lg): p[0] for lg in ml for nr, p in enumerate(ml[lg])}
+            if api != texts and not bad:
+                bad = 'parts written %r differ from the parts of the API %r' % (
+                    sorted(texts), sorted(api))
+        except BaseException as e:
+            bad = bad or 'API: %r' % e
+        if bad:
+            res.failures.append((key, case, bad))
+
+
 def run(tier, seed, build, res):
     rng = random.Random(seed)
     res.rule = ('parser stream: grammar documents (gens/docs.py), prefixes, '
@@ -92,6 +135,7 @@ def run(tier, seed, build, res):
         universe.run(cases[i:i + 2000], res, 'parser', project, oracle,
                      sample_rule=lambda c, im: any(t for _, t, _ in universe.texts_of(im)))
     cli_sample(rng, res, 3 if tier == 'quick' else 30)
+    cli_mula_sample(rng, res, 3 if tier == 'quick' else 30)
 
 
 def replay(payload, build, res):
